@@ -105,6 +105,7 @@ type enc struct {
 	usedFCs         map[*FuncContract]string // contracts applied at call sites -> callee key
 	usedSites       map[string]bool
 	usedGlobalInvs  []*GlobalInv
+	usedTypeInvs    map[string]bool         // pkg.Type whose invariants this VC assumed at a load
 	factGuard       string                  // reach predicate under which the type facts of the value being declared hold
 	assertsEnd      map[*ssa.BasicBlock]int // number of assumptions made when the block had been encoded
 	priv            []privAlloc
